@@ -463,7 +463,7 @@ pub fn run(a: &Args, rep: &mut Report) {
         exec_history(kind, ops, &pool, pk, mb, out);
     });
     // ---- the same histories on 8 threads at once, each on its own VM: identical observations ----
-    if !cfg!(miri) {
+    if !cfg!(miri) && crate::mon_par::par_mult() > 0 {
         let sample: Vec<&(Kind, Vec<Op>)> = histories.iter().take(if q { 300 } else { 3000 }).collect();
         let (pka, pkl, mba, mbl) = (pkt.addr() as usize, pkt.len(), mbuff.addr() as usize, mbuff.len());
         let pool_ref = &pool;
